@@ -362,12 +362,18 @@ def theorem_gate(ctx, prop_modules, extra_build=None):
     return ok, failing
 
 
-def run_harness_robust(cmd, lines, timeout_per_batch=1800, extra_args=None):
+def run_harness_robust(cmd, lines, timeout_per_batch=1800, extra_args=None, max_restarts=25):
     """Like run_harness, but survives a process abort (stack overflow, OOM) or hang: the request
-    that killed the process gets the reply 'abort rc=<n>' / 'timeout' and the rest is re-run."""
+    that killed the process gets the reply 'abort rc=<n>' / 'timeout' and the rest is re-run
+    (after `max_restarts` deaths the remaining requests get the reply 'not-run')."""
     replies = []
     todo = list(lines)
+    restarts = 0
     while todo:
+        if restarts > max_restarts:
+            replies += ["not-run"] * len(todo)
+            break
+        restarts += 1
         data = "\n".join(todo) + "\n"
         try:
             p = subprocess.run([HARNESS_BIN, cmd] + (extra_args or []), input=data, timeout=timeout_per_batch,
